@@ -191,12 +191,19 @@ func vShortenOK(shown, orig string, width int) bool {
 	if utf8.RuneCountInString(shown) > width || utf8.RuneCountInString(orig) <= width {
 		return false
 	}
-	i := strings.Index(shown, "…")
-	if i < 0 {
-		return false
+	// the name itself may contain the omission mark: any of its occurrences in the shown text may be the inserted one
+	for from := 0; ; {
+		k := strings.Index(shown[from:], "…")
+		if k < 0 {
+			return false
+		}
+		i := from + k
+		p, s := shown[:i], shown[i+len("…"):]
+		if strings.HasPrefix(orig, p) && strings.HasSuffix(orig, s) && len(p)+len(s) < len(orig) && (p != "" || s != "") {
+			return true
+		}
+		from = i + len("…")
 	}
-	p, s := shown[:i], shown[i+len("…"):]
-	return strings.HasPrefix(orig, p) && strings.HasSuffix(orig, s) && len(p)+len(s) < len(orig) && (p != "" || s != "")
 }
 
 func c15SplitDays(out string, dates map[string]bool) [][]string {
@@ -298,7 +305,7 @@ func checkC15(c c15Case, ctx *vCtx) *vFailure {
 		}
 		// (c) shorten
 		sh := c15ReadReg(run(nc, append(append([]string{"reg"}, tpl.args...), "--shorten")...), tpl.la)
-		if msg := c15Shortened(recs, sh); msg != "" {
+		if msg := c15Shortened(recs, sh, len(tpl.args) == 0); msg != "" { // only the default template has shortening in its layout
 			return vFailf("reg %v --shorten: %s", tpl.args, msg)
 		}
 		// (d) default = no-totals + totals-only interleaved per day
@@ -466,7 +473,15 @@ func c15SameRecords(a, b []vRegDay) string {
 	return ""
 }
 
-func c15Shortened(orig, sh []vRegDay) string {
+// strict: the layout shortens (the default template does; the old reporter and the left-aligned template print names as they are), so a name longer than its column must come out
+// shortened; the left-aligned template puts names last on the line and leaves them alone
+func c15Shortened(orig, sh []vRegDay, strict bool) string {
+	ok := func(shown, o string, width int) bool {
+		if !strict && shown == o {
+			return true
+		}
+		return vShortenOK(shown, o, width)
+	}
 	if len(orig) != len(sh) {
 		return fmt.Sprintf("%d days instead of %d", len(sh), len(orig))
 	}
@@ -479,19 +494,19 @@ func c15Shortened(orig, sh []vRegDay) string {
 			if y.Foods[k].Val != x.Foods[k].Val || len(x.Foods[k].Ingrs) != len(y.Foods[k].Ingrs) {
 				return fmt.Sprintf("day %d food %d changed: %v vs %v", i, k, x.Foods[k], y.Foods[k])
 			}
-			if y.Foods[k].Name != x.Foods[k].Name && !vShortenOK(y.Foods[k].Name, x.Foods[k].Name, 27) {
+			if !ok(y.Foods[k].Name, x.Foods[k].Name, 27) {
 				return fmt.Sprintf("food name %q shown as %q (not a prefix…suffix within 27 columns)", x.Foods[k].Name, y.Foods[k].Name)
 			}
 			for j := range x.Foods[k].Ingrs {
 				a, b := x.Foods[k].Ingrs[j], y.Foods[k].Ingrs[j]
-				if a.Val != b.Val || (a.Name != b.Name && !vShortenOK(b.Name, a.Name, 20)) {
+				if a.Val != b.Val || !ok(b.Name, a.Name, 20) {
 					return fmt.Sprintf("ingredient (%q, %s) shown as (%q, %s)", a.Name, a.Val, b.Name, b.Val)
 				}
 			}
 		}
 		for k := range x.Totals {
 			a, b := x.Totals[k], y.Totals[k]
-			if a.Pos != b.Pos || a.Neg != b.Neg || a.Sum != b.Sum || (a.Name != b.Name && !vShortenOK(b.Name, a.Name, 20)) {
+			if a.Pos != b.Pos || a.Neg != b.Neg || a.Sum != b.Sum || !ok(b.Name, a.Name, 20) {
 				return fmt.Sprintf("total row %v shown as %v", a, b)
 			}
 		}
@@ -548,6 +563,11 @@ func genC15(t *rapid.T) c15Case {
 		s.Log.Recs[i].Lines = append(s.Log.Recs[i].Lines, vLine{Kind: vkEntry, Name: n1, Num: d + rest, L: plain})
 		s.Log.Recs[j].Lines = append(s.Log.Recs[j].Lines, vLine{Kind: vkEntry, Name: n2, Num: rest, L: plain})
 		s.Log.NoFinalNL = false
+	}
+	if len(s.Log.Recs) > 0 && len(s.Days) == len(s.Log.Recs) && rapid.IntRange(0, 9).Draw(t, "zeroday") == 0 {
+		i := rapid.IntRange(0, len(s.Days)-1).Draw(t, "zerodayat")
+		s.Days[i] = vZeroDay
+		s.Log.Recs[i].Head = vFmtDay(vZeroDay, layout)
 	}
 	c := c15Case{S: s, Layout: layout, X: s.Basics[rapid.IntRange(0, len(s.Basics)-1).Draw(t, "x")]}
 	switch rapid.IntRange(0, 2).Draw(t, "tpl") {
